@@ -4,4 +4,5 @@
 
 pub mod prng;
 pub mod out;
+pub mod spec13;
 pub mod streams;
